@@ -99,6 +99,22 @@ def main():
         for k in ("needs", "breaks"):
             if k in old:
                 res[k] = old[k]
+        if skip_suite:
+            for k in ("suite_passed", "suite_failed", "suite_tail"):
+                if k in old:
+                    res[k] = old[k]
+            res["valid_seeded_change"] = bool(res.get("patch_applies") and res.get("demo_exit_unchanged") == 0 and
+                                              res.get("demo_exit_patched") == 1 and res.get("suite_passed") == 386 and not res.get("suite_failed"))
+        res["breaks"] = prop
+        np_ = os.path.join(src, "notes.md")
+        if os.path.exists(np_):
+            res["needs_to_manifest_and_agent_log"] = open(np_).read()
+        res["what_was_run"] = [
+            "git worktree add <scratch> HEAD; demo.py on the unchanged tree (expect exit 0)",
+            "git apply patch.diff; pytest -q --deselect tests/test_integration.py::TestIntegration (expect 386 passed)",
+            "demo.py with the patch (expect exit 1)",
+            "VERIF_REPO=<scratch> ./check <ID> --tier %s (expect VIOLATION, exit 1); replay of the written replay file in a fresh interpreter against the patched tree (expect exit 1) and against the unchanged tree (expect exit 0)" % tier,
+            "git worktree remove --force <scratch>"]
         hist = old.get("history", [])
         hist.append({"at": res["validated_at"], "caught_by": res["caught_by"], "tier": tier, "props": props})
         res["history"] = hist
